@@ -134,9 +134,11 @@ def gen_input(rng, mode: str, flavour: str = "mixed") -> dict:
         eps = [2.0 ** -30, 0.0] if mode == "Q" else [1e-12, 1e-4]
     elif r < 0.36:
         eps = [0.0, 0.0] if mode == "Q" else [1e-9, 0.5]
+    expect_valid = all(any(v > 0 for c2 in cells for m2, v in c2["alloc"] if m2 == m) for c in cells for m, _ in c["alloc"])
     if rng.random() < 0.08:
         _spoil(rng, cells)
-    return {"mode": mode, "family": fam, "eps": eps, "text": (not any(c["kind"] == "O" for c in cells)) and rng.random() < 0.8,
+        expect_valid = False
+    return {"expect_valid": expect_valid, "mode": mode, "family": fam, "eps": eps, "text": (not any(c["kind"] == "O" for c in cells)) and rng.random() < 0.8,
             "cells": cells, "fixed": sorted(fixed), "ops": None}
 
 
@@ -165,7 +167,24 @@ def _spoil(rng, cells) -> None:
         c["alloc"] = c["alloc"] + [["Z0", 0.0]]   # a module of total area 0: ZeroDivisionError
 
 
-def next_op(rng, mode: str, ncells: int, mods: list[str], flavour: str):
+def next_op(rng, mode: str, a, mods: list[str], flavour: str):
+    """draw the next operation; an operation whose result would exceed the size cap is replaced by a query."""
+    ncells = len(a.allocations)
+    op = _next_op(rng, mode, ncells, mods, flavour)
+    t = op[1] if op[0] == "R" else 0.5
+    if op[0] == "U":
+        mx = max(ra.depth for ra in a.allocations)
+        if sum(2 ** (mx - ra.depth) for ra in a.allocations) > 3 * MAX_CELLS:
+            return ["M", t]
+    if op[0] == "G":
+        nx = len({v for ra in a.allocations for v in (ra.rect.bounding_box.ll.x, ra.rect.bounding_box.ur.x)})
+        ny = len({v for ra in a.allocations for v in (ra.rect.bounding_box.ll.y, ra.rect.bounding_box.ur.y)})
+        if nx * ny > 4 * MAX_CELLS:
+            return ["M", t]
+    return op
+
+
+def _next_op(rng, mode: str, ncells: int, mods: list[str], flavour: str):
     ratios = Q_RATIOS if mode == "Q" else F_RATIOS
     r = rng.random()
     t = rng.choice(ratios + [1.0, 0.5])
@@ -282,9 +301,10 @@ def run_impl(inp: dict, rng=None, flavour: str = "mixed", nops: int = 0):
         steps: list = []
         try:
             a = Allocation(build_arg(inp))
-        except (AssertionError, ZeroDivisionError, ValueError, IndexError, KeyError) as e:
+        except Exception as e:
             if inp["ops"] is None:
                 inp["ops"] = []
+            steps.append((["init"], None, None, err(e)))
             return [err(e)], steps, Rectangle._area_epsilon
         for i in inp["fixed"]:
             a.allocations[i].rect.fixed = True
@@ -299,7 +319,7 @@ def run_impl(inp: dict, rng=None, flavour: str = "mixed", nops: int = 0):
             if drawing:
                 if k >= nops:
                     break
-                op = next_op(rng, mode, len(a.allocations), module_order(a), flavour)
+                op = next_op(rng, mode, a, module_order(a), flavour)
                 ops.append(op)
             else:
                 if k >= len(ops):
@@ -320,7 +340,7 @@ def run_impl(inp: dict, rng=None, flavour: str = "mixed", nops: int = 0):
                     segs.append(f"{sc(p.x, mode)} {sc(p.y, mode)}")
                     steps.append((op, cur, None, None))
                     continue
-            except (AssertionError, ZeroDivisionError, ValueError, IndexError, KeyError) as e:
+            except Exception as e:
                 segs.append(err(e))
                 steps.append((op, cur, None, err(e)))
                 continue
@@ -333,7 +353,7 @@ def run_impl(inp: dict, rng=None, flavour: str = "mixed", nops: int = 0):
                     a2 = a.griddify()
                 else:
                     raise RuntimeError(op)
-            except (AssertionError, ZeroDivisionError, ValueError, IndexError, KeyError) as e:
+            except Exception as e:
                 segs.append(err(e))
                 steps.append((op, cur, None, err(e)))
                 break
@@ -420,7 +440,29 @@ def seg_close(a: str, b: str, mode: str, tol: float) -> tuple[bool, bool]:
     return True, False
 
 
-def compare(ctx: Ctx, inp: dict, segs: list[str], reply: str) -> None:
+def _is_tie(ctx: Ctx, inp: dict, i: int, msegs: list[str], sqrt_ans: float) -> bool:
+    """float stream only: the model's own answer up to segment i changes shape when every width (or height) of the
+    input moves by ±4 ulp — the decision (`h > w`, cuttable, overlap) sits on a rounding tie, outside the property."""
+    from vcheck import ulp_nudge
+    reqs = []
+    for fld in (2, 3):
+        for k in (-4, 4):
+            v = dict(inp)
+            v["cells"] = [dict(c, v=[(ulp_nudge(x, k) if j == fld else x) for j, x in enumerate(c["v"])]) for c in inp["cells"]]
+            if any(c["v"][fld] <= 0 for c in v["cells"]):
+                continue
+            reqs.append(request(v, sqrt_ans))
+    reps = ctx.model(reqs) or []
+    for r in reps:
+        rs = r.split(" ;; ")
+        for j in range(1, i + 1):
+            a, b = (rs[j] if j < len(rs) else "<missing>"), (msegs[j] if j < len(msegs) else "<missing>")
+            if not seg_close(a, b, "F", 1e-6)[0]:
+                return True
+    return False
+
+
+def compare(ctx: Ctx, inp: dict, segs: list[str], reply: str, sqrt_ans: float = 0.0) -> None:
     msegs = reply.split(" ;; ")
     mode = inp["mode"]
     for i in range(max(len(segs), len(msegs))):
@@ -428,10 +470,13 @@ def compare(ctx: Ctx, inp: dict, segs: list[str], reply: str) -> None:
         m = msegs[i] if i < len(msegs) else "<missing>"
         ok, exact = seg_close(s, m, mode, 1e-9)
         if ok:
-            if not exact:
+            if not exact and mode == "F":
                 ctx.drift += 1
             continue
         opname = "init" if i == 0 else (inp["ops"][i - 1][0] if i - 1 < len(inp["ops"]) else "?")
+        if mode == "F" and not s.startswith("err") and not m.startswith("err") and _is_tie(ctx, inp, i, msegs, sqrt_ans):
+            ctx.ties += 1
+            return
         ctx.disagree(f"hist:{opname}@{i}", inp, s[:600], m[:600], size=len(inp["cells"]) + 4 * i)
         return
 
@@ -511,6 +556,21 @@ def inp_public(inp: dict) -> dict:
 def small(d: dict) -> dict:
     return {k: (float(v) if isinstance(v, Fraction) else v) for k, v in d.items() if k not in ("alloc", "_bb")} | \
         {"alloc": [(m, float(v)) for m, v in d.get("alloc", [])]}
+
+
+MODELLED_ERRORS = {"err:AssertionError", "err:ZeroDivisionError", "err:ValueError", "err:IndexError", "err:KeyError"}
+
+
+def spec_raised(ctx: Ctx, inp: dict, steps) -> None:
+    """an exception class the model does not know, or the constructor rejecting a well-formed layout."""
+    for idx, (op, before, after, error) in enumerate(steps):
+        if error is None:
+            continue
+        size = len(inp["cells"]) + 4 * idx
+        if error not in MODELLED_ERRORS:
+            ctx.spec_fail("operation-raised", inp, {"step": idx, "op": op, "raised": error}, size)
+        elif op[0] == "init" and inp.get("expect_valid"):
+            ctx.spec_fail("operation-raised:constructor-on-valid-layout", inp, {"raised": error}, size)
 
 
 # --------------------------------------------------------------------------------------------- C02 clauses
@@ -626,6 +686,77 @@ def cells_equal(xs: list[dict], ys: list[dict], t: Fraction) -> bool:
     return len(xs) == len(ys) and all(same_cell(a, b, t) for a, b in zip(xs, ys))
 
 
+def allowed_halvings(w: Fraction, h: Fraction, levels: int, rel: Fraction) -> set:
+    """(a, b): the cell is halved a times in x and b times in y by the longer-side rule; when the sides agree within
+    `rel` (float stream: the decision depends on rounding) both continuations are allowed."""
+    out = set()
+
+    def go(w, h, a, b, k):
+        if k == 0:
+            out.add((a, b))
+            return
+        if h > w * (1 + rel):
+            go(w, h / 2, a, b + 1, k - 1)
+        elif w >= h * (1 + rel) or rel == 0:
+            go(w / 2, h, a + 1, b, k - 1)
+        else:
+            go(w, h / 2, a, b + 1, k - 1)
+            go(w / 2, h, a + 1, b, k - 1)
+    go(w, h, 0, 0, levels)
+    return out
+
+
+def split_group_ok(parent: dict, kids: list[dict], levels: int, t: Fraction, ta: Fraction) -> str | None:
+    """float stream version of `refine_exact` for one cell: 2^levels pieces of the right size tiling the parent."""
+    if len(kids) != 2 ** levels:
+        return "count"
+    if levels == 0:
+        return None if same_cell(kids[0], parent, t) else "untouched-cell-changed"
+    allowed = allowed_halvings(parent["w"], parent["h"], levels, Fraction(1, 10 ** 9))
+    px0, py0, px1, py1 = cbb(parent)
+    tot = Fraction(0)
+    for k in kids:
+        if k["depth"] != parent["depth"] + levels or k["alloc"] != parent["alloc"]:
+            return "depth-or-ratios"
+        if not any(abs(k["w"] - parent["w"] / 2 ** a) <= t and abs(k["h"] - parent["h"] / 2 ** b) <= t for a, b in allowed):
+            return "piece-size"
+        x0, y0, x1, y1 = cbb(k)
+        if not (x0 >= px0 - t and y0 >= py0 - t and x1 <= px1 + t and y1 <= py1 + t):
+            return "piece-inside"
+        tot += k["w"] * k["h"]
+    if abs(tot - parent["w"] * parent["h"]) > ta * len(kids):
+        return "area"
+    for u in range(len(kids)):
+        for v in range(u + 1, len(kids)):
+            if c_overlap(kids[u], kids[v]) > ta:
+                return "disjoint"
+    return None
+
+
+def exact_split_check(ctx: Ctx, clause: str, inp: dict, idx: int, op, olds, news, levels_of, t: Fraction, size: int) -> None:
+    mode = inp["mode"]
+    if mode == "Q":
+        exp: list[dict] = []
+        for c in olds:
+            exp += halves(c, levels_of(c))
+        if not cells_equal(exp, news, t):
+            ctx.spec_fail(clause, inp, {"step": idx, "op": op, "expected_cells": len(exp), "got_cells": len(news),
+                                        "first_diff": next((small(b) for a, b in zip(exp, news) if not same_cell(a, b, t)), None)}, size)
+        return
+    ta = t * scale_of(olds) * 4
+    pos = 0
+    for c in olds:
+        lv = levels_of(c)
+        kids = news[pos:pos + 2 ** lv]
+        pos += 2 ** lv
+        why = split_group_ok(c, kids, lv, t, ta)
+        if why:
+            ctx.spec_fail(clause, inp, {"step": idx, "op": op, "cell": small(c), "levels": lv, "why": why}, size)
+            return
+    if pos != len(news):
+        ctx.spec_fail(clause, inp, {"step": idx, "op": op, "expected_cells": pos, "got_cells": len(news)}, size)
+
+
 def spec_c12_step(ctx: Ctx, inp: dict, idx: int, op, before: dict, after: dict | None, error) -> None:
     mode = inp["mode"]
     size = len(inp["cells"]) + 4 * idx
@@ -636,7 +767,7 @@ def spec_c12_step(ctx: Ctx, inp: dict, idx: int, op, before: dict, after: dict |
         try:
             pred = a.must_be_refined(op[1])
             ref = a.refine(op[1], 1)
-        except (AssertionError, ZeroDivisionError, ValueError, IndexError, KeyError) as e:
+        except Exception as e:
             ctx.spec_fail("refine_ok", inp, {"step": idx, "op": op, "raised": err(e)}, size)
             return
         new = snapshot(ref)["cells"]
@@ -656,23 +787,16 @@ def spec_c12_step(ctx: Ctx, inp: dict, idx: int, op, before: dict, after: dict |
         return
     news = after["cells"]
     if op[0] == "R":
-        exp: list[dict] = []
-        for c in olds:
-            exp += halves(c, op[2] if split_cond(c, op[1]) else 0)
-        if not cells_equal(exp, news, t):
-            ctx.spec_fail("refine_exact", inp, {"step": idx, "op": op, "expected_cells": len(exp), "got_cells": len(news),
-                                                "first_diff": next((small(b) for a, b in zip(exp, news) if not same_cell(a, b, t)), None)}, size)
+        exact_split_check(ctx, "refine_exact", inp, idx, op, olds, news,
+                          lambda c: op[2] if split_cond(c, op[1]) else 0, t, size)
     elif op[0] == "U":
         mx = max(c["depth"] for c in olds)
         bad = [small(c) for c in news if not c["fixed"] and c["depth"] != mx]
         if bad:
             ctx.spec_fail("uniform_all_maxdepth", inp, {"step": idx, "op": op, "max_depth": mx, "cell": bad[0]}, size)
             return
-        exp = []
-        for c in olds:
-            exp += halves(c, 0 if c["fixed"] else mx - c["depth"])
-        if not cells_equal(exp, news, t):
-            ctx.spec_fail("uniform_exact", inp, {"step": idx, "op": op, "expected_cells": len(exp), "got_cells": len(news)}, size)
+        exact_split_check(ctx, "uniform_exact", inp, idx, op, olds, news,
+                          lambda c: 0 if c["fixed"] else mx - c["depth"], t, size)
     elif op[0] == "G":
         spec_aligned(ctx, inp, idx, op, olds, news, size)
 
